@@ -18,6 +18,7 @@ import Gotree.Lemmas.C16Extra
 import Gotree.Lemmas.C16Doc
 import Gotree.Lemmas.C16Surj2
 import Gotree.Lemmas.C16Surj3
+import Gotree.Lemmas.C16Depth
 
 namespace Gotree.C16
 open Gotree
@@ -127,6 +128,35 @@ theorem gen_meets_oracle2 (g : GenKind) (n : Nat) (rooted : Bool) (ints : List N
     ∃ o, run g (n : Int) rooted ints lens = .ok o ∧ genTreeOK2 g n rooted o.t = true := by
   obtain ⟨o, h1, h2⟩ := gen_meets_oracle g n rooted ints lens h hd hl
   exact ⟨o, h1, genTreeOK2_of_genTreeOK g n rooted o.t h2⟩
+
+/-! ### node depths (what `ComputeDepths` leaves in `Node.Depth()`)
+
+   `depthsOf` (Spec/C16Depth) is the specification the driver compares `Node.Depth()` of every node
+   of every returned tree with: branches to the closest tip, below the node in a rooted tree,
+   anywhere in an unrooted one.  Proved here: one value per node, and the rule of the rooted case. -/
+
+/-- one depth per node, in `Nodes()` order -/
+theorem depths_one_per_node (t : T) : (depthsOf t).length = t.size := by
+  unfold depthsOf
+  split
+  · exact depthsR_length t
+  · split
+    · cases t with
+      | node d p ks => simp [T.size, depthsUL_length]; omega
+    · exact depthsU_length none t
+
+/-- the rooted rule: a tip has depth 0; an inner node is one branch further from a tip than the
+    closest of its children -/
+theorem downDepth_rule (d : NodeD) (p : Nat) (k : EdgeD × T) (ks : Kids) :
+    downDepth (.node d p []) = 0 ∧
+    (∀ et ∈ k :: ks, downDepth (.node d p (k :: ks)) ≤ 1 + downDepth et.2) ∧
+    ∃ et ∈ k :: ks, downDepth (.node d p (k :: ks)) = 1 + downDepth et.2 := by
+  obtain ⟨m, hm, hle, ⟨w, hw, hwm⟩⟩ := downMin_spec (k :: ks) (by simp)
+  refine ⟨by simp [downDepth], ?_, ?_⟩
+  · intro et het
+    simp only [downDepth, hm, Option.getD_some]
+    have := hle et het; omega
+  · exact ⟨w, hw, by simp only [downDepth, hm, Option.getD_some, hwm]⟩
 
 /-! ### gen_rejects -/
 
